@@ -1,6 +1,7 @@
 package main
 
 import (
+	"database/sql"
 	"encoding/json"
 	"fmt"
 	"math/rand"
@@ -116,6 +117,49 @@ type c14Op struct {
 	Kind   string `json:"kind"` // commit | discard
 	FailAt int    `json:"failAt"` // -1 = no fault; k = the (k+1)-th write fails
 	Once   bool   `json:"once"`   // only that one write fails (an injected error); otherwise every later write fails too (a crash)
+	// a fault below the store interface: one class of SQL statement of the ref store fails (SQLite
+	// trigger raising ABORT) for the duration of the operation. head-upsert / reflog-insert: the two
+	// statements of the logged update of heads/<On>; tx-update: the status flip; staged-delete: the
+	// delete of txs/<id>/<On>; tx-delete: the delete of the transaction row.
+	Sql string `json:"sql,omitempty"`
+	On  string `json:"on,omitempty"`
+	// command-line scenarios: the staged commit object of this branch is unreadable during the operation
+	Hide string `json:"hide,omitempty"`
+}
+
+// c14SQLFault installs the trigger(s) that make the statements of class op.Sql fail; the returned
+// function removes them.
+func c14SQLFault(db *sql.DB, op c14Op, txid uuid.UUID) (func() error, error) {
+	q := func(s string) string { return "'" + strings.ReplaceAll(s, "'", "''") + "'" }
+	var defs []string
+	switch op.Sql {
+	case "head-upsert":
+		// INSERT ... ON CONFLICT DO UPDATE: fail the insert and the update it may turn into
+		defs = []string{"BEFORE INSERT ON refs WHEN NEW.name = " + q("heads/"+op.On), "BEFORE UPDATE ON refs WHEN NEW.name = " + q("heads/"+op.On)}
+	case "reflog-insert":
+		defs = []string{"BEFORE INSERT ON reflogs WHEN NEW.ref = " + q("heads/"+op.On)}
+	case "tx-update":
+		defs = []string{"BEFORE UPDATE ON transactions"}
+	case "staged-delete":
+		defs = []string{"BEFORE DELETE ON refs WHEN OLD.name = " + q("txs/"+txid.String()+"/"+op.On)}
+	case "tx-delete":
+		defs = []string{"BEFORE DELETE ON transactions"}
+	default:
+		return nil, fmt.Errorf("unknown sql fault %q", op.Sql)
+	}
+	for i, d := range defs {
+		if _, err := db.Exec(fmt.Sprintf("CREATE TRIGGER verif_fault_%d %s BEGIN SELECT RAISE(ABORT, 'injected fault'); END", i, d)); err != nil {
+			return nil, err
+		}
+	}
+	return func() error {
+		for i := range defs {
+			if _, err := db.Exec(fmt.Sprintf("DROP TRIGGER verif_fault_%d", i)); err != nil {
+				return err
+			}
+		}
+		return nil
+	}, nil
 }
 
 type c14Input struct {
@@ -137,7 +181,7 @@ type c14State struct {
 func c14Run(in *c14Input) Res {
 	return Guard(func() Res {
 		db := NewMemStore()
-		rs, closeRS := NewRefStore()
+		rs, sqlDB, closeRS := NewRefStoreDB()
 		defer closeRS()
 		sums := map[int][]byte{}
 		idOf := map[string]int{}
@@ -236,15 +280,26 @@ func c14Run(in *c14Input) Res {
 			fdb := &faultObjStore{Store: db, b: b}
 			frs := &faultRefStore{Store: rs, b: b}
 			var err error
+			var disarm func() error
+			if op.Sql != "" {
+				if disarm, err = c14SQLFault(sqlDB, op, *txid); err != nil {
+					return Err("trigger")
+				}
+			}
 			switch op.Kind {
 			case "commit":
 				_, err = transaction.Commit(fdb, frs, *txid)
 			case "discard":
 				err = transaction.Discard(frs, *txid)
 			}
+			if disarm != nil {
+				if derr := disarm(); derr != nil {
+					return Err("trigger-drop")
+				}
+			}
 			outcome := "ok"
 			if err != nil {
-				if op.FailAt >= 0 && strings.Contains(err.Error(), "injected fault") {
+				if (op.FailAt >= 0 || op.Sql != "") && strings.Contains(err.Error(), "injected fault") {
 					outcome = "failed"
 				} else {
 					outcome = "refused"
@@ -275,29 +330,66 @@ func genC14(r *rand.Rand) *c14Input {
 	maxWrites := 2*nb + 1
 	switch r.Intn(7) {
 	case 0:
-		in.Ops = []c14Op{{"commit", -1, false}, {"commit", -1, false}}
+		in.Ops = []c14Op{{Kind: "commit", FailAt: -1, Once: false}, {Kind: "commit", FailAt: -1, Once: false}}
 	case 1:
-		in.Ops = []c14Op{{"commit", -1, false}, {"discard", -1, false}}
+		in.Ops = []c14Op{{Kind: "commit", FailAt: -1, Once: false}, {Kind: "discard", FailAt: -1, Once: false}}
 	case 2:
-		in.Ops = []c14Op{{"discard", -1, false}, {"commit", -1, false}}
+		in.Ops = []c14Op{{Kind: "discard", FailAt: -1, Once: false}, {Kind: "commit", FailAt: -1, Once: false}}
 	case 3:
-		in.Ops = []c14Op{{"commit", r.Intn(maxWrites), r.Intn(2) == 0}, {"discard", -1, false}}
+		in.Ops = []c14Op{{Kind: "commit", FailAt: r.Intn(maxWrites), Once: r.Intn(2) == 0}, {Kind: "discard", FailAt: -1, Once: false}}
 	default:
 		f := r.Intn(maxWrites)
-		in.Ops = []c14Op{{"commit", f, r.Intn(2) == 0}, {"commit", -1, false}}
+		in.Ops = []c14Op{{Kind: "commit", FailAt: f, Once: r.Intn(2) == 0}, {Kind: "commit", FailAt: -1, Once: false}}
 		if r.Intn(3) == 0 {
 			// fail twice before completing
-			in.Ops = []c14Op{{"commit", f, r.Intn(2) == 0}, {"commit", r.Intn(maxWrites), r.Intn(2) == 0}, {"commit", -1, false}, {"commit", -1, false}}
+			in.Ops = []c14Op{{Kind: "commit", FailAt: f, Once: r.Intn(2) == 0}, {Kind: "commit", FailAt: r.Intn(maxWrites), Once: r.Intn(2) == 0}, {Kind: "commit", FailAt: -1, Once: false}, {Kind: "commit", FailAt: -1, Once: false}}
 		}
 	}
 	if r.Intn(5) == 0 {
 		// a fault inside discard (one store operation per staged ref, then the transaction row), then discard again
-		in.Ops = []c14Op{{"discard", r.Intn(nb + 2), r.Intn(2) == 0}, {"discard", -1, false}}
+		in.Ops = []c14Op{{Kind: "discard", FailAt: r.Intn(nb + 2), Once: r.Intn(2) == 0}, {Kind: "discard", FailAt: -1, Once: false}}
 		if r.Intn(3) == 0 {
-			in.Ops = append([]c14Op{{"commit", r.Intn(maxWrites), r.Intn(2) == 0}}, in.Ops...)
+			in.Ops = append([]c14Op{{Kind: "commit", FailAt: r.Intn(maxWrites), Once: r.Intn(2) == 0}}, in.Ops...)
 		}
 	}
 	return in
+}
+
+// c14SQLOps replaces the operations of a generated scenario by ones whose fault is a failing SQL
+// statement inside the ref store (draws made after those of genC14).
+func c14SQLOps(r *rand.Rand, in *c14Input) {
+	staged := []string{}
+	for b := range in.Staged {
+		staged = append(staged, b)
+	}
+	sort.Strings(staged)
+	branch := func() string {
+		if r.Intn(8) == 0 {
+			return []string{"a", "b", "c", "d"}[r.Intn(4)] // possibly not staged: the fault never fires
+		}
+		return staged[r.Intn(len(staged))]
+	}
+	none := func(kind string) c14Op { return c14Op{Kind: kind, FailAt: -1} }
+	sqlOp := func(kind, class string) c14Op { return c14Op{Kind: kind, FailAt: -1, Sql: class, On: branch()} }
+	refStmt := func() string { return []string{"reflog-insert", "reflog-insert", "head-upsert"}[r.Intn(3)] }
+	switch r.Intn(10) {
+	case 0, 1, 2:
+		in.Ops = []c14Op{sqlOp("commit", refStmt()), none("commit")}
+	case 3:
+		in.Ops = []c14Op{sqlOp("commit", "tx-update"), none("commit")}
+	case 4:
+		in.Ops = []c14Op{sqlOp("commit", refStmt()), none("discard")}
+	case 5:
+		in.Ops = []c14Op{sqlOp("commit", refStmt()), sqlOp("commit", refStmt()), none("commit"), none("commit")}
+	case 6:
+		in.Ops = []c14Op{{Kind: "commit", FailAt: r.Intn(2*len(staged) + 1), Once: r.Intn(2) == 0}, sqlOp("commit", refStmt()), none("commit")}
+	case 7:
+		in.Ops = []c14Op{sqlOp("discard", "staged-delete"), none("discard")}
+	case 8:
+		in.Ops = []c14Op{sqlOp("discard", "tx-delete"), none("discard")}
+	default:
+		in.Ops = []c14Op{sqlOp("commit", refStmt()), sqlOp("discard", []string{"staged-delete", "tx-delete"}[r.Intn(2)]), none("discard")}
+	}
 }
 
 func runC14(ctx *Ctx) {
@@ -305,17 +397,47 @@ func runC14(ctx *Ctx) {
 		runC14CLI(ctx)
 		return
 	}
+	if stageEvery := map[bool]int{false: 100, true: 400}[ctx.Thorough()]; ctx.Idx%stageEvery == 24 {
+		// staging through `wrgl commit --txid` (a second or two per case: 6 in the quick tier, 160 in the thorough one)
+		runC14Stage(ctx)
+		return
+	}
 	in := genC14(ctx.R)
+	tags := []string{}
+	if ctx.Idx%5 == 2 {
+		// every fifth case: the fault is a failing SQL statement inside the ref store
+		c14SQLOps(ctx.R, in)
+		tags = append(tags, "sqlfault")
+	}
 	nt := false
 	for _, op := range in.Ops {
 		if op.FailAt > 0 && op.FailAt < 2*len(in.Staged) {
 			nt = true
 		}
+		if op.Sql != "" {
+			nt = true
+		}
 	}
-	ctx.Emit("tx", in, c14Run(in), nt)
+	ctx.Emit("tx", in, c14Run(in), nt, tags...)
 }
 
 func corpusC14(ctx *Ctx, op string, raw json.RawMessage) {
+	switch op {
+	case "tx-cli":
+		var in c14CLIInput
+		if err := json.Unmarshal(raw, &in); err != nil {
+			panic(err)
+		}
+		ctx.Emit("tx-cli", &in, c14CLIRun(&in), true, "corpus")
+		return
+	case "tx-cli-stage":
+		var in c14StageInput
+		if err := json.Unmarshal(raw, &in); err != nil {
+			panic(err)
+		}
+		ctx.Emit("tx-cli-stage", &in, c14StageRun(&in), true, "corpus")
+		return
+	}
 	var in c14Input
 	if err := json.Unmarshal(raw, &in); err != nil {
 		panic(err)
